@@ -44,7 +44,20 @@ func c03Helper(t *testing.T, run *h.Run, maxN int) bool {
 		}()
 	}
 	for n := 1; n <= maxN; n++ {
-		forEachSeq(n, c03Classes, func(seq []int) { jobs <- append([]int{}, seq...) })
+		if n <= 6 {
+			forEachSeq(n, c03Classes, func(seq []int) { jobs <- append([]int{}, seq...) })
+			continue
+		}
+		// 7 nodes: the five classes that enter the budget arithmetic differently (no pod, up-to-date available,
+		// outdated available, outdated unavailable, stuck)
+		core := []int{cNoPod, cUpAvail, cOldAvail, cOldUnavail, cStuckUnsched}
+		forEachSeq(n, len(core), func(seq []int) {
+			m := make([]int, len(seq))
+			for i, x := range seq {
+				m[i] = core[x]
+			}
+			jobs <- m
+		})
 	}
 	close(jobs)
 	wg.Wait()
